@@ -5,6 +5,7 @@
 // ------------------------------------------------------------------ scope
 struct Scope {
   int sigma = 2, L = 2, maxn = 0, co = -1, nf = 2, minn = 1;
+  std::vector<int> pres = {0};   // length of a common prefix prepended to every string (VByte boundaries of the shared-prefix length)
   std::vector<int> pals = {0}, stretches = {1};
   str pd = "quick";
   std::vector<int> kinds;
@@ -22,6 +23,7 @@ struct Scope {
       else if (e[0] == "nf") sc.nf = atoi(e[1].c_str());
       else if (e[0] == "pd") sc.pd = e[1];
       else if (e[0] == "pal") { sc.pals.clear(); for (auto &x : split(e[1], '+')) sc.pals.push_back(pal_by_name(x)); }
+      else if (e[0] == "pre") { sc.pres.clear(); for (auto &x : split(e[1], '+')) sc.pres.push_back(atoi(x.c_str())); }
       else if (e[0] == "stretch") { sc.stretches.clear(); for (auto &x : split(e[1], '+')) sc.stretches.push_back(atoi(x.c_str())); }
       else if (e[0] == "kinds") { for (auto &x : split(e[1], '+')) sc.kinds.push_back(kind_by_name(x)); }
     }
@@ -106,13 +108,21 @@ static strs sources_for(int k, const str &pd) {
 }
 
 // ------------------------------------------------------------------ unit = (set, palette, stretch)
-struct Unit { uint32_t mask; int pal, stretch; };
+struct Unit { uint32_t mask; int pal, stretch; int pre = 0; };
 
 static Cell make_cell(const Scope &sc, const strs &U, const Unit &u) {
   Cell cell; cell.pal = u.pal; cell.sigma = sc.sigma; cell.L = sc.L; cell.stretch = u.stretch;
-  for (size_t i = 0; i < U.size(); i++) if (u.mask & (1u << i)) cell.S.push_back(concretise(U[i], PALETTES[u.pal], u.stretch));
+  str pre((size_t)u.pre, (char)PALETTES[u.pal].b[0]);
+  for (size_t i = 0; i < U.size(); i++) if (u.mask & (1u << i)) cell.S.push_back(pre + concretise(U[i], PALETTES[u.pal], u.stretch));
   std::sort(cell.S.begin(), cell.S.end(), ult);
   cell.Q = query_universe(PALETTES[u.pal], sc.sigma, sc.L, u.stretch, sc.nf);
+  if (u.pre > 0) {   // queries: the prefixed universe, the bare prefix and its neighbours, and a few un-prefixed ones
+    strs q2; for (auto &q : cell.Q) q2.push_back(pre + q);
+    q2.push_back(pre); q2.push_back(pre.substr(1)); q2.push_back(pre + (char)PALETTES[u.pal].b[0]);
+    for (size_t i = 0; i < cell.Q.size() && i < 6; i++) q2.push_back(cell.Q[i]);
+    cell.Q = q2;
+  }
+  cell.pre = u.pre;
   return cell;
 }
 
